@@ -71,7 +71,7 @@ impl<O: DataOrder> LoadStore<O> for RawU8 {
 impl<O: DataOrder> LoadStore<O> for RawU16 {
     fn load(buffer: &[u8], index: usize) -> Option<Self> {
         buffer
-            .get(index * 2..)
+            .get(index.checked_mul(2)?..)
             .and_then(|buffer| buffer.get(0..2))
             .map(|slice| {
                 let bytes = slice.try_into().unwrap();
@@ -94,7 +94,7 @@ impl<O: DataOrder> LoadStore<O> for RawU16 {
         };
 
         buffer
-            .get_mut(index * 2..)
+            .get_mut(index.checked_mul(2).ok_or(OutOfBoundsError)?..)
             .and_then(|buffer| buffer.get_mut(0..2))
             .ok_or(OutOfBoundsError)
             .map(|buffer| buffer.copy_from_slice(&bytes))
@@ -104,7 +104,7 @@ impl<O: DataOrder> LoadStore<O> for RawU16 {
 impl<O: DataOrder> LoadStore<O> for RawU24 {
     fn load(buffer: &[u8], index: usize) -> Option<Self> {
         buffer
-            .get(index * 3..)
+            .get(index.checked_mul(3)?..)
             .and_then(|buffer| buffer.get(0..3))
             .map(|slice| {
                 let bytes: [_; 3] = slice.try_into().unwrap();
@@ -131,7 +131,7 @@ impl<O: DataOrder> LoadStore<O> for RawU24 {
         };
 
         buffer
-            .get_mut(index * 3..)
+            .get_mut(index.checked_mul(3).ok_or(OutOfBoundsError)?..)
             .and_then(|buffer| buffer.get_mut(0..3))
             .ok_or(OutOfBoundsError)
             .map(|buffer| buffer.copy_from_slice(&bytes))
@@ -141,7 +141,7 @@ impl<O: DataOrder> LoadStore<O> for RawU24 {
 impl<O: DataOrder> LoadStore<O> for RawU32 {
     fn load(buffer: &[u8], index: usize) -> Option<Self> {
         buffer
-            .get(index * 4..)
+            .get(index.checked_mul(4)?..)
             .and_then(|buffer| buffer.get(0..4))
             .map(|slice| {
                 let bytes = slice.try_into().unwrap();
@@ -164,7 +164,7 @@ impl<O: DataOrder> LoadStore<O> for RawU32 {
         };
 
         buffer
-            .get_mut(index * 4..)
+            .get_mut(index.checked_mul(4).ok_or(OutOfBoundsError)?..)
             .and_then(|buffer| buffer.get_mut(0..4))
             .ok_or(OutOfBoundsError)
             .map(|buffer| buffer.copy_from_slice(&bytes))
